@@ -212,14 +212,21 @@ func run(sc scenario) outcome {
 				counter(key, "unit=Metric.action=drop.reason=conn_down_no_spool")-down0, sent, len(all), len(e.Incarnations()), tail)
 			break
 		}
-		rt.Flush()
-		time.Sleep(2 * time.Millisecond)
-		stream := e.All()
-		out.received = bytes.Count(stream, []byte("\n")) - bytes.Count(stream, []byte("c06.warm."))
-		out.slowConn = counter(key, "unit=Metric.action=drop.reason=slow_conn") - slow0
-		out.connDown = counter(key, "unit=Metric.action=drop.reason=conn_down_no_spool") - down0
-		out.backlog = out.slowConn > 0
+		// later sentinels may still be in flight: settled once received + counted drops reaches handed (bounded wait)
 		total := out.handed + sent
+		var stream []byte
+		for dl := time.Now().Add(15 * time.Second); ; {
+			rt.Flush()
+			stream = e.All()
+			out.received = bytes.Count(stream, []byte("\n")) - bytes.Count(stream, []byte("c06.warm."))
+			out.slowConn = counter(key, "unit=Metric.action=drop.reason=slow_conn") - slow0
+			out.connDown = counter(key, "unit=Metric.action=drop.reason=conn_down_no_spool") - down0
+			if int64(total) == int64(out.received)+out.slowConn || time.Now().After(dl) {
+				break
+			}
+			time.Sleep(5 * time.Millisecond)
+		}
+		out.backlog = out.slowConn > 0
 		if int64(total) != int64(out.received)+out.slowConn {
 			out.accountErr = fmt.Sprintf("endpoint up the whole time: %d lines handed, %d received, slow-connection drop counter moved by %d (conn_down %d): %d lines unaccounted for", total, out.received, out.slowConn, out.connDown, int64(total)-int64(out.received)-out.slowConn)
 		}
